@@ -143,7 +143,8 @@ def run_mc_job(job, scratch):
                       xmx=job.get("xmx", "8g"), extra=job.get("extra"))
     if job.get("expect_violation"):
         # a negative control: the model must exhibit the (repaired) design defect under this configuration
-        if "is violated" not in out:
+        want = job["expect_violation"]
+        if ("is violated" not in out) or (isinstance(want, str) and ("Invariant %s is violated" % want) not in out):
             raise Infra("model %s/%s was expected to violate its property (negative control) but did not:\n%s" % (job["module"], job["cfg"], out[-2000:]))
     elif "No error has been found" not in out:
         raise Infra("model %s/%s: TLC reports an error or did not finish:\n%s" % (job["module"], job["cfg"], out[-3000:]))
@@ -316,6 +317,14 @@ def run_lock_job(job, scratch):
             viols.append({"line": 0, "seg": e["group"], "rules": ["C06:request-retries-without-bound"], "ev": "prog", "proc": c["proc"],
                           "job": job["name"], "driver_cmd": job["driver"], "event": c, "driver": "lockprogs", "seed": seed,
                           "context": ["%d transactions" % e["txns"]]})
+    for ln in out.splitlines():   # lock-order discipline (the assumption of the design model FsProto)
+        ln = ln.strip()
+        if ln.startswith('"ORDER '):
+            for o in json.loads(json.loads(ln)[6:]):
+                e = progs[o["id"]]
+                viols.append({"line": 0, "seg": e["group"], "rules": ["C06:lock-acquired-below-a-held-lock"], "ev": "prog", "proc": e["call"]["proc"],
+                              "job": job["name"], "driver_cmd": job["driver"], "event": e["call"], "driver": "lockprogs", "seed": seed,
+                              "context": ["step %d acquires inode %d while holding %s" % (o["step"], o["inum"], o["held"]), json.dumps(e["steps"])]})
     dl = set()
     for ln in out.splitlines():
         ln = ln.strip()
@@ -699,6 +708,21 @@ def conccrash_job(name, seed, clients, segs, steps, avoid, maximg=60, loss=2, al
     return j
 
 
+def fsproto_jobs(q, which):
+    """exhaustive runs of the design model of the lock/transaction protocol and its negative controls"""
+    J = lambda cfg, **kw: dict({"name": "FsProto/" + cfg, "kind": "mc", "module": "FsProto.tla", "cfg": "FsProto_%s.cfg" % cfg, "workers": 6}, **kw)
+    jobs = []
+    sfx = [""] if q else ["", "_3", "_big"]
+    for sc in ("tree", "shrink", "half"):
+        for x in sfx:
+            jobs.append(J(sc + x, xmx="12g"))
+    if which in ("C03", "C08"):
+        jobs += [J("norecheck", expect_violation="Refines"), J("half_norecheck", expect_violation="Refines")]
+    if which == "C06":
+        jobs += [J("live"), J("unsorted", expect_violation="NoDeadlock"), J("plus", expect_violation="NoDeadlock")]
+    return jobs
+
+
 def probe_job(prop, avoid):
     return {"name": "probes-" + prop, "module": "NfsTrace.tla", "cfg": "NfsTrace.cfg",
             "driver": ["probes", "-prop", prop]}
@@ -737,6 +761,7 @@ def plan(prop, tier, seed, known):
         jobs.append({"name": "wingetalloc", "kind": "lin", "also": ["C08"], "driver": ["windows", "-part", "-1", "-parts", "1"]})
         for k in range(7):   # a file handle whose inode number is given to a new object while a request through it is between its retries
             jobs.append({"name": "winrecycle%d" % k, "kind": "lin", "also": ["C08"], "driver": ["windows", "-part", "-2", "-parts", "7", "-seed", str(k)]})
+        jobs += fsproto_jobs(q, "C08")
         for k in ([(seed * 3 + j) % 32 for j in range(2)] if q else range(0, 32, 2)):
             jobs.append({"name": "win%d" % k, "kind": "lin", "also": ["C08"], "driver": ["windows", "-part", str(k), "-parts", "32"]})
     elif prop == "C12":
@@ -826,6 +851,7 @@ def plan(prop, tier, seed, known):
         jobs.append({"name": "wingetalloc", "kind": "lin", "driver": ["windows", "-part", "-1", "-parts", "1"]})
         for k in range(7):   # third family: the inode number is recycled for a new object inside the victim's lock-free window
             jobs.append({"name": "winrecycle%d" % k, "kind": "lin", "also": ["C08"], "driver": ["windows", "-part", "-2", "-parts", "7", "-seed", str(k)]})
+        jobs += fsproto_jobs(q, "C03")
         for i in range(1 if q else 12):   # a crash in the middle of a concurrent history leaves a linearization prefix
             jobs.append(conccrash_job("conccrash%d" % i, seed * 100 + 90 + i, 2 + i % 3, 3 if q else 6, 6 if q else 8, av, 60 if q else 150, 2 if q else 4))
     elif prop == "C16":
@@ -852,6 +878,7 @@ def plan(prop, tier, seed, known):
                          "driver": ["conc", "-seed", str(seed * 100 + 40 + i), "-segs", "10" if q else "40", "-steps", "10",
                                     "-clients", str(3 + i % 2), "-avoid", av]})
         jobs.append(probe_job(prop, av))
+        jobs += fsproto_jobs(q, "C06")
     elif prop == "C14":
         n = 4 if q else 32
         for i in range(n):
